@@ -127,13 +127,38 @@ class C15(object):
     assumptions = ['slack %g: a mode of modulus <= 2 may grow one step past the acceptance test' % SLACK,
                    'inner solves are exact (recursive blocks), so inner tolerance cannot blur the verdict']
     required_counters = ('accepted.judged', 'accepted.negative_valued', 'rejected.judged', 'untouched.judged',
-                         'via_solve_equation', 'inner_loop_tight_tolerance.cases', 'near_cancelling_derived.cases',
+                         'via_solve_equation', 'inner_loop_tight_tolerance.cases', 'near_cancelling_derived.cases', 'acceptance_window.cases',
                          'coarse_per_period_tolerance.cases')
 
     def n_cases(self, tier):
         return 300 if tier == 'quick' else 20000
 
+    def window_case(self, rng):
+        """A slowly converging state next to a derived variable that is a small difference of it and a constant, with a
+        horizon chosen so that the state already passes the (relative) acceptance test while the derived variable would
+        not: the acceptance test has to look at every reported variable, derived ones included."""
+        lam = rng.choice([0.5, 0.8, 0.9, 0.95, 0.97])
+        tgt = rng.choice([100.0, -1000.0, 40.0, 250.0, -60.0])
+        ic = rng.choice([0.0, 50.0, -5.0, 3.0])
+        frac = rng.choice([0.99, 0.98, 1.02, 0.995])
+        tol = 10 ** rng.uniform(-6, -3)
+        x_prev, k_accept = ic, None
+        for k in range(1, 2000):
+            x = lam * x_prev + tgt * (1 - lam)
+            if abs(x - x_prev) <= tol * abs(x):
+                k_accept = k
+                break
+            x_prev = x
+        d = {'rows': [['x0', {'LAG_x0': lam}, tgt * (1 - lam)]], 'names': ['x0'], 'ics': {'x0': ic}, 'exo': None,
+             'deco': rng.random() < 0.5, 'kinds': ['stable', 'acceptance_window'], 'loop': None, 'near_cancel': frac * tgt}
+        T = min(600, (k_accept or 300) + rng.randint(0, 3))
+        return {'kind': 'search', 'dyn': d, 'text': render(d), 'T': T, 'loop_default_tolerance': False,
+                'coarse_step_tolerance': rng.random() < 0.3, 'tol': tol, 'reduction': rng.random() < 0.8,
+                'via_solve': rng.random() < 0.3, 'window': True}
+
     def make_case(self, rng, idx, tier):
+        if idx % 12 == 5:
+            return self.window_case(rng)
         d = gen_dynamics(rng)
         via_solve = rng.random() < 0.3
         if via_solve and d['exo'] is not None:
@@ -170,6 +195,8 @@ class C15(object):
             rec.count('coarse_per_period_tolerance.cases')
         if case['dyn'].get('near_cancel') is not None:
             rec.count('near_cancelling_derived.cases')
+        if case.get('window'):
+            rec.count('acceptance_window.cases')
         exo_names = [n for n, _ in s.Parser.Exogenous]
 
         def snap():
